@@ -1,16 +1,20 @@
 // C33 harness: link up/down sequences on an IS-IS server with an active and/or a passive interface.
 //
 // Input tokens:  ifs=<a|p|ap>  then events  <U|D|N|L|T|M|K><i>   (i = interface index in ifs;
-//   U = oper state up, the other letters are the six non-up oper states: D down, N not present,
-//   L lower layer down, T testing, M dormant, K unknown).
+//
+//	U = oper state up, the other letters are the six non-up oper states: D down, N not present,
+//	L lower layer down, T testing, M dormant, K unknown).
+//
 // Observation, one token per event:
-//   <outcome>/<state of if0>[/<state of if1>]/h<n>/a<0|1>/g<0|1>
-//   outcome = ok | panic:<kind> | blocked:<where>          (of the DeviceUpdate call)
-//   state   = k<devknown>u<operup>i<initialized>d<doneclosed>e<has handle>c<handle closed>n<#handles>
-//   h<n>    = hellos sent by all interfaces during the following 5 s of server time (one tick of every
-//             periodic routine: lifetime decrement, LSP/PSNP/CSNP senders, hello senders)
-//   a<b>    = a neighbor's hellos injected on the first interface's current handle formed an Up adjacency
-//   g<b>    = the own LSP is in the LSDB after the pending regeneration ran
+//
+//	<outcome>/<state of if0>[/<state of if1>]/h<n>/a<0|1>/g<0|1>
+//	outcome = ok | panic:<kind> | blocked:<where>          (of the DeviceUpdate call)
+//	state   = k<devknown>u<operup>i<initialized>d<doneclosed>e<has handle>c<handle closed>n<#handles>
+//	h<n>    = hellos sent by all interfaces during the following 5 s of server time (one tick of every
+//	          periodic routine: lifetime decrement, LSP/PSNP/CSNP senders, hello senders)
+//	a<b>    = a neighbor's hellos injected on the first interface's current handle formed an Up adjacency
+//	g<b>    = the own LSP is in the LSDB after the pending regeneration ran
+//
 // The case ends at the first event whose outcome is not ok. A panic on a goroutine of the server
 // kills the worker process; the parent records CRASH:<kind>.
 package main
